@@ -270,8 +270,15 @@ func c18Gen(t *rapid.T) c18Case {
 func TestVerif_C18(t *testing.T) {
 	k := verifkit.Start(t, "C18")
 	prop := c18Prop(t, k)
-	k.Regress(t, func(sub string, raw json.RawMessage) error { return verifkit.Decode(raw, prop) })
+	wire := wireProp(k.Record, false)
+	k.Regress(t, func(sub string, raw json.RawMessage) error {
+		if strings.HasPrefix(sub, "wire") {
+			return verifkit.Decode(raw, wire)
+		}
+		return verifkit.Decode(raw, prop)
+	})
 	verifkit.Rapid(k, t, "message-sequences", k.N(5000, 1000000), c18Gen, prop)
+	verifkit.Rapid(k, t, "wire-bytes", k.N(20000, 4000000), wireGen, wire)
 }
 
 var _ = sort.Strings
